@@ -29,7 +29,12 @@ type c04Cfg struct {
 	noctx  bool          // call without WithContext (caller context not passed)
 	pdl    time.Duration // caller deadline relative to the start of the call; 0: none
 	pre    string        // "", "cancel": caller cancelled before the call, "expired": caller deadline already passed
+	user   bool          // the caller's context is of a user-defined type (not one of package context's own)
 }
+
+// c04UserCtx is a caller-defined context type: everything is delegated, but no fast path keyed
+// on the standard implementations applies to it.
+type c04UserCtx struct{ context.Context }
 
 const (
 	c04Short    = 40 * time.Millisecond
@@ -169,6 +174,9 @@ func c04Call(t *testing.T, em *verifEmitter, cfg c04Cfg, script []c04Op) {
 	}
 	parent, parentCancel := context.WithCancel(parent)
 	cancels = append(cancels, parentCancel)
+	if cfg.user {
+		parent = c04UserCtx{parent}
+	}
 	defer func() {
 		for _, cf := range cancels {
 			cf()
@@ -322,6 +330,12 @@ var c04Cfgs = []c04Cfg{
 	{def: c04Short, pre: "cancel"},
 	{def: c04Huge, pre: "cancel"},
 	{def: c04Huge, pre: "expired"},
+	// the caller brings a deadline LATER than now+timeout: the timeout is the one that counts
+	{def: c04Short, pdl: c04Huge},
+	{def: 35 * time.Millisecond, pdl: c04Huge, user: true},
+	{def: c04Short, pdl: c04Short}, // both at the same moment
+	{def: c04Huge, pdl: c04Short, user: true},
+	{def: c04Huge, user: true}, // only the caller's cancellation can end it
 }
 
 func TestVerifC04Fx(t *testing.T) {
